@@ -567,12 +567,102 @@ func cleanup(x *explore.X, w *world.World, c *ctx, stalled []*peerConn, probe *p
 	}
 }
 
+// manyStalled (round 9): a listener with bandwidth limits and MANY (1100) connections that make no progress - no byte
+// yet, part of a request head, idle between two requests. A limit is a budget of octets per second for the octets that
+// move; a connection on which nothing moves costs nothing: a well-behaved client connecting at the same instant is
+// served without any virtual time passing, and so is one of the idle connections when it sends its next request.
+func manyStalled(x *explore.X) {
+	lim := x.ChooseFree("limits", 3) // 0 write-limit, 1 read-limit, 2 both
+	sp := x.ChooseFree("stall-point", 3)
+	const n = 1100
+	opts := world.Options{}
+	if lim != 1 {
+		opts.WriteLimit = 16 * 1024
+	}
+	if lim != 0 {
+		opts.ReadLimit = 16 * 1024
+	}
+	opts.Tweak = func(cfg *forwarder.HTTPProxyConfig, _ *forwarder.HTTPTransportConfig) {
+		cfg.IdleTimeout = idleTO
+		cfg.ReadHeaderTimeout = headerTO
+	}
+	w, err := world.Start(opts)
+	if err != nil {
+		x.Failf("harness/start", "%v", err)
+		return
+	}
+	ok, _ := w.Hop("ok.test:80", nil)
+	req := "GET http://ok.test/ HTTP/1.1\r\nHost: ok.test\r\n\r\n"
+	exchange := func(c *world.Peer, what string) bool {
+		c.Send([]byte(req))
+		msgs, conns, _ := ok.Next()
+		if len(msgs) != 1 {
+			return false
+		}
+		ok.Conns[conns[0]].Send([]byte("HTTP/1.1 200 OK\r\nContent-Length: 2\r\n\r\nok"))
+		rs := httpwire.ParseResponses(c.Recv(), []string{"GET", "GET"}, false)
+		return len(rs.Msgs) >= 1 && rs.Msgs[len(rs.Msgs)-1].Status == 200
+	}
+	t0 := time.Now()
+	var stalled []*world.Peer
+	for i := 0; i < n; i++ {
+		c, err := w.Client()
+		if err != nil {
+			x.Failf("harness/client", "%v", err)
+			return
+		}
+		stalled = append(stalled, c)
+		switch sp {
+		case 1:
+			c.Send([]byte(req[:20]))
+		case 2:
+			if !exchange(c, "setting up") {
+				x.Failf("delayed-by-stalled-peers/establishing", "limits %d: connection %d of %d was not served its first exchange at once (%v of virtual time so far)", lim, i+1, n, time.Since(t0))
+				return
+			}
+		}
+	}
+	what := fmt.Sprintf("limits %s, %d connections stalled at %s", []string{"write 16 KiB/s", "read 16 KiB/s", "read and write 16 KiB/s"}[lim], n, []string{"no byte", "a partial request head", "idle between requests"}[sp])
+	if d := time.Since(t0); d != 0 {
+		x.Failf("delayed-by-stalled-peers/establishing", "%s: bringing them there took %v of virtual time", what, d)
+		return
+	}
+	x.Check()
+	probe, _ := w.Client()
+	if !exchange(probe, "probe") || time.Since(t0) != 0 {
+		for i := 0; i < 60 && len(probe.Recv()) == 0; i++ {
+			world.Settle(time.Second)
+			if msgs, conns, _ := ok.Next(); len(msgs) == 1 {
+				ok.Conns[conns[0]].Send([]byte("HTTP/1.1 200 OK\r\nContent-Length: 2\r\n\r\nok"))
+			}
+		}
+		x.Failf("delayed-by-stalled-peers/rate-limited-listener", "%s: a well-behaved client connecting at the same instant was served after %v of virtual time (got %q), want 0", what, time.Since(t0), world.Clip(probe.Recv()))
+	} else if sp == 2 {
+		if !exchange(stalled[n/2], "idle connection resumes") || time.Since(t0) != 0 {
+			x.Failf("delayed-by-stalled-peers/rate-limited-listener", "%s: one of the idle connections sent its next request and was served after %v of virtual time, want 0", what, time.Since(t0))
+		}
+	}
+	x.Outcome(fmt.Sprintf("lim%d sp%d", lim, sp))
+	for _, c := range stalled {
+		c.Close()
+	}
+	probe.Close()
+	if err := w.Stop(); err != nil {
+		x.Failf("shutdown", "%v", err)
+	}
+	ok.Close()
+	if l := world.Leaks(); l != "" {
+		x.Failf("goroutine-leak", "%s", l)
+	}
+}
+
 func TestC15(t *testing.T) {
 	s := explore.NewSuite(t, "C15", "model_checking",
 		"listener stacking(5: plain, TLS, PROXY protocol, PROXY protocol + TLS, MITM inside CONNECT) x every stall point of that stacking (no byte, partial PROXY header at 3 offsets, partial TLS hello at 2 offsets, after CONNECT, partial request head at 3 offsets, between requests, origin slow) [full product] x number of simultaneously stalled peers {1,2,8} x for stalls inside a request head: complete exchanges before it {0,1} x quiet period before its first byte {0, read-header-timeout+1s, idle-timeout-1ms} x {stall for good, complete the head 1 ms before the limit and be served}; for stalls inside the TLS hello of an intercepted CONNECT: quiet period between the 200 and the first hello byte {0, tls-handshake-timeout+1s, idle-timeout-1ms} [bounded: quick <=2 deviations, thorough full product]; thorough additionally stalls at EVERY byte offset of the PROXY header, of the TLS hello prefix and of the request head; all on the virtual clock with distinct limits (idle 30 s, read-header 7 s, TLS handshake 5 s, PROXY header 3 s); states = quiescent states at t0, limit-1ms, limit+1ms; oracle: probe client connecting at the same virtual instant is served in 0 s, stalled sockets open at limit-1ms and closed at limit+1ms, never closed while only the origin is slow (10 virtual minutes), the late answer is delivered; plus (no-proxy-header-limit) --proxy-protocol-read-header-timeout 0 x {PROXY protocol, PROXY protocol + TLS} x 4 cut points of the header x pause {4 s, 6 s, 1 min, 10 min}: the peer is served; plus later-phase stalls preceded by a PROXY header completed 1 ms inside its limit, and head stalls whose first bytes arrive in the segment of the previous request")
 	s.Assume = []string{"testing/synctest virtual clock: time advances only when every goroutine of the proxy is durably blocked", "sync.Mutex held across timed waits in proxy.go and proxyproto/net.go replaced by a channel mutex at build time (vsync) so the virtual clock can advance"}
 	s.Add(explore.Scenario{Name: "stalls", Remote: true, MaxDev: map[string]int{"quick": 2, "thorough": 4},
 		Run: func(x *explore.X) { world.Run(t, x, func() { scenario(x, false) }) }})
+	s.Add(explore.Scenario{Name: "many-stalled-peers-on-a-rate-limited-listener", Remote: true, Run: func(x *explore.X) { world.Run(t, x, func() { manyStalled(x) }) }})
 	s.Add(explore.Scenario{Name: "no-proxy-header-limit", Remote: true, Run: func(x *explore.X) { world.Run(t, x, func() { noHeaderLimit(x) }) }})
 	s.Add(explore.Scenario{Name: "every-offset", Remote: true, Tiers: []string{"thorough"}, MaxDev: map[string]int{"thorough": 2},
 		Run: func(x *explore.X) { world.Run(t, x, func() { scenario(x, true) }) }})
